@@ -23,7 +23,7 @@ LEVEL_TEXT = ('The look-up functions compare formatted strings, so the alphabet 
 LEVEL_NOTE = ('ids outside the alphabet, PELs without primary SRC under --src/--src-exclude, empty --src and look-ups '
               'combined with selection options are not constrained')
 RULE = ('directory = one PEL per id in a 12-value alphabet (PLID != EID) + shared-PLID pair + hidden + non-serviceable + '
-        'no-SRC PEL; queries: --plid ids x 6 spellings + all one-digit near misses + malformed lengths; --bmc-id 9 values; '
+        'no-SRC PEL + 36 PELs over severity group x action-flag class; queries: --plid ids x 6 spellings + all one-digit near misses + malformed lengths; --bmc-id 9 values; '
         '-i every entry id x 3 spellings + absent; --src every substring (1..8) of 5 codes + 3 absent; --src-exclude every '
         'subset of the codes; -x variants; 3-file directories in all 6 listing orders; -i / --bmc-id with files that carry the id '
         '(in their name / in a Private Header) but hold no decodable PEL, sorting before and after the real PEL, both listing orders. Non-trivial: expected result set '
@@ -49,6 +49,14 @@ def directory():
     # "falsy" id values on PELs that only the look-up clause lets through: hidden with BMC id 0 / PLID 0
     pels.append({'plid': 0x00000000, 'eid': 0x60000005, 'obmc': 0, 'code': 'B7001111', 'uh': {'sev': 0x40, 'flags': 0x6000}})
     pels.append({'plid': 0x00000001, 'eid': 0x60000006, 'obmc': 104, 'code': 'B7001111', 'uh': {'sev': 0x00, 'flags': 0x0000}})  # informational
+    # every class of PEL is found: severity group x (service action, hidden, report, call home) flag combinations, incl. the
+    # ones where "serviceable" and "hidden" hold together (informational + service action + hidden)
+    j = 0
+    for sev in (0x00, 0x10, 0x20, 0x40, 0x51, 0x71):
+        for flags in (0x0000, 0x4000, 0x8000, 0xC000, 0x6800, 0xE000):
+            pels.append({'plid': 0x0000B000 + j, 'eid': 0x61000000 + j, 'obmc': 200 + j, 'code': CODES[j % len(CODES)],
+                         'uh': {'sev': sev, 'flags': flags}})
+            j += 1
     out = []
     for i, m in enumerate(pels):
         secs = [{'t': 'UD', 'comp': 0xABCD, 'payload': '%02x' % i}]
@@ -65,6 +73,7 @@ def directory():
 
 
 DIR = directory()
+N_BASE = 18          # the PELs of the id alphabet; the severity / action-flag class PELs follow
 
 
 def spellings(v):
@@ -80,9 +89,9 @@ def bounds(tier):
 def plan(tier, seed):
     parts = 4 if tier == 'quick' else 16
     return [{'k': 'plid', 'part': p, 'parts': parts, 'tier': tier} for p in range(parts)] + \
-        [{'k': 'bmc', 'tier': tier}, {'k': 'id', 'tier': tier}, {'k': 'id_junk'}, {'k': 'bmc_junk'}, {'k': 'src'}, {'k': 'srcx'}, {'k': 'perm', 'tier': tier}, {'k': 'subproc'}] + \
+        [{'k': 'bmc', 'tier': tier}, {'k': 'id', 'tier': tier}, {'k': 'id_junk'}, {'k': 'bmc_junk'}, {'k': 'src'}, {'k': 'srcx'}, {'k': 'classes'}, {'k': 'perm', 'tier': tier}, {'k': 'subproc'}] + \
         [dict(c, optimize=True) for c in        # the same under python -O (assertions stripped, __debug__ false)
-         [{'k': 'plid', 'part': 0, 'parts': 4, 'tier': 'quick'}, {'k': 'bmc', 'tier': 'quick'}, {'k': 'id', 'tier': 'quick'}, {'k': 'id_junk'}, {'k': 'bmc_junk'}, {'k': 'src'}]]
+         [{'k': 'plid', 'part': 0, 'parts': 4, 'tier': 'quick'}, {'k': 'bmc', 'tier': 'quick'}, {'k': 'id', 'tier': 'quick'}, {'k': 'id_junk'}, {'k': 'bmc_junk'}, {'k': 'src'}, {'k': 'classes'}]]
 
 
 def build(d, entries=None):
@@ -238,7 +247,7 @@ def run_chunk(chunk):
             build(d)
         if k == 'plid':
             qs = []
-            present = sorted({m['plid'] for _, _, m in DIR})
+            present = sorted({m['plid'] for _, _, m in DIR[:N_BASE]})
             for v in present + [m['eid'] for _, _, m in DIR[:4]]:
                 for s in spellings(v):
                     qs.append({'q': 'plid', 'arg': s})
@@ -256,6 +265,13 @@ def run_chunk(chunk):
                 if i % chunk['parts'] == chunk['part']:
                     for order in (['sorted'] if i % 5 else ['sorted', 'reversed']):
                         _do(res, d, dict(c, order=order))
+        elif k == 'classes':
+            for _, _, m in DIR[N_BASE:]:
+                for order in ('sorted', 'reversed'):
+                    _do(res, d, {'q': 'plid', 'arg': '%08X' % m['plid'], 'order': order})
+                    _do(res, d, {'q': 'id', 'arg': '%08X' % m['eid'], 'order': order})
+                    _do(res, d, {'q': 'bmc', 'arg': str(m['obmc']), 'order': order})
+                _do(res, d, {'q': 'plid', 'arg': '%08X' % m['plid'], 'hex': True})
         elif k == 'bmc':
             for v in ([0, 1, 7, 10, 20, 4294967295, 100, 101, 102, 103, 104, 2, 8, 4294967294, 42949672950] +
                       (list(range(3, 120)) if chunk.get('tier') == 'thorough' else [])):
